@@ -875,7 +875,7 @@ static void part1(const Args &a, Rng &rng)
                 }
         }
     // ---- STUN-server discovery: every sequence of length 2 (3) over the server-path alphabet, 1 and 2 servers configured —
-    // including the two inputs that left a deleted transaction registered before repo commit 314ddf9: a success response
+    // including the two inputs that left a deleted transaction registered before repo commit d3fbd07: a success response
     // without mapped address, and one reporting an address that is already a local candidate.
     {
         std::vector<Dg> sv;
@@ -1205,7 +1205,7 @@ static void part2(const Args &a, Rng &rng)
     }
 }
 
-// (Fixed by repo commit 314ddf9; the probes stay as regression tests.)
+// (Fixed by repo commit d3fbd07; the probes stay as regression tests.)
 // Two STUN servers that report the SAME reflexive address (the normal case behind one NAT), or a success response without a mapped
 // address: QXmppIceComponent::transactionFinished returned early and left the transaction — which it has just scheduled for
 // deletion — registered in stunTransactions.  Consequences: (1) gathering never completes; (2) the next STUN message of any kind
